@@ -135,7 +135,7 @@ structure MergeSt where
 def mergeRec (s : St) (db : DB) (m : MergeSt) (nonMerge fileId : Nat) (payload : ByteArray) (pos : Pos) : St × MergeSt :=
   if m.failed.isSome then (s, m) else
   match decodeRecord payload with
-  | none => (s, { m with failed := some "panic:decode" })
+  | none => (s, { m with failed := some "crc" })     -- `NextLogRecord`: `validLogRecord` fails
   | some rec =>
     match Index.get db.index rec.key with
     | none => (s, m)
